@@ -1,4 +1,4 @@
-CONSTANTS Tasks = {1, 2, 3}  Bug = "none"  MaxLen = 8
+CONSTANTS Tasks = {1, 2, 3}  Bug = "none"  MaxLen = 8  MaxStray = 1
 INIT Init
 NEXT Next
 INVARIANT MutualExclusion
